@@ -81,6 +81,13 @@ def run(ctx):
         else:
             burst = bytes(33)
             slot, frame_type = 0xDDDD, 0x0000
+        if k % 23 == 7:
+            # the slot type the library's enumeration defines as Undefined (0xFFFF) around a data burst
+            pdu, dt, _ = make_pdu(rng, rng.choice(list(kinds)))
+            burst = gen.assemble_data_burst(pdu, dt, cc, rng.choice(gen.DATA_SYNCS))
+            slot = 0xFFFF
+        if k % 3 == 2:
+            frame_type = rng.choice([0x0000, 0x1111, 0x3333, 0x6666, 0xBBBB, 0xEEEE])      # the types cross: any frame type with any slot type
         # 24-bit ids: extremes, random values and values with zero / all-ones octets in each position
         ident = lambda: rng.choice([0, 1, 2 ** 24 - 1, rng.randrange(1 << 24), rng.randrange(1 << 24),
                                     rng.choice([0x000100, 0x010000, 0x800000, 0x00FF00, 0xFF0000, 0x0000FF, 0x123400, 0x120034, 0x001234, 0xFFFF00]),
@@ -97,6 +104,16 @@ def run(ctx):
              + frame_type.to_bytes(2, "little") + res(2) + byteswap_bytes(burst + b"\x00") + res(2) + bytes([call])
              + (ident() << 8).to_bytes(4, "little") + (ident() << 8).to_bytes(4, "little") + res(1))
         frames.append(f)
+    # no vacuity: every member of the library's own slot / frame / packet / call type enumerations occurs in the generated frames
+    from okdmr.dmrlib.hytera.ipsc_elements.call_type import CallType
+    from okdmr.dmrlib.hytera.ipsc_elements.frame_type import FrameType
+    from okdmr.dmrlib.hytera.ipsc_elements.packet_type import PacketType
+    from okdmr.dmrlib.hytera.ipsc_elements.slot_type import SlotType
+    for E, get in ((SlotType, lambda f_: int.from_bytes(f_[18:20], "little")), (FrameType, lambda f_: int.from_bytes(f_[22:24], "little")),
+                   (PacketType, lambda f_: f_[8]), (CallType, lambda f_: f_[62])):
+        missing = {m.value for m in E} - {get(f_) for f_ in frames}
+        if missing:
+            raise core.MachineryError(f"{E.__name__} members never generated: {sorted(missing)}")
     # some frames are received twice in a row (a repeater's retransmission); the caller edits the first decoding before the
     # second arrives, and both must still be judged as decodings of the frame
     again = []
